@@ -365,6 +365,8 @@ def simp1(t):
         return None
     if k == 'attr' and t[2] == 'name' and is_enum_member(t[1]):
         return C(t[1][2])                     # Enum member .name
+    if k == 'idx' and t[1][0] == 'call' and t[1][1] == S('divmod') and len(t[1][2]) == 2 and t[2] in (C(0), C(1)) and not (len(t[1]) > 3 and t[1][3]):
+        return ('bin', 'FloorDiv' if t[2] == C(0) else 'Mod', t[1][2][0], t[1][2][1])          # divmod(a, b)[0] is a // b, [1] is a % b
     if k == 'idx' and t[1][0] == 'slice' and t[2][0] == 'const' and isinstance(t[2][1], int) and not isinstance(t[2][1], bool) and t[2][1] >= 0 \
             and t[1][2][0] == 'const' and isinstance(t[1][2][1], int) and t[1][2][1] >= 0 and t[1][3] == NONE:
         return ('idx', t[1][1], C(t[1][2][1] + t[2][1]))             # xs[a:][k] is xs[a + k]
